@@ -71,8 +71,31 @@ fn mk_string(r: &mut Rng) -> String {
     s
 }
 
+/// Run-time built label tables handed to `Key::from_static_labels` (borrowed, with elements that
+/// own heap data or Arcs). Kept reachable from a static so that they are not reported as leaks.
+static LEAKED: std::sync::Mutex<Vec<&'static [Label]>> = std::sync::Mutex::new(Vec::new());
+
 fn construct(r: &mut Rng) -> Val {
-    match r.below(8) {
+    match r.below(9) {
+        8 => {
+            // borrowed label slice whose elements have destructors: converting it to an owned
+            // vector (into_parts, with_extra_labels) must clone element by element
+            let n = 1 + r.below(3) as usize;
+            let a: Arc<str> = Arc::from("leaked-shared");
+            let values: Vec<String> = (0..n).map(|_| mk_string(r)).collect();
+            let mut lv: Vec<Label> = vec![];
+            let mut labels: Vec<(String, String)> = vec![];
+            for (i, v) in values.into_iter().enumerate() {
+                labels.push((format!("b{}", i), v.clone()));
+                lv.push(Label::new(format!("b{}", i), v));
+            }
+            labels.push(("bs".into(), "leaked-shared".into()));
+            lv.push(Label::new("bs", SharedString::from_shared(a)));
+            let table: &'static [Label] = Box::leak(lv.into_boxed_slice());
+            LEAKED.lock().unwrap().push(table);
+            let v = Key::from_static_labels("borrowed_table", table);
+            Val::K { v, name: "borrowed_table".into(), labels }
+        }
         0 => {
             let s = STATICS[r.below(4) as usize];
             Val::S { v: SharedString::const_str(s), model: s.to_string(), arc: None }
